@@ -42,6 +42,13 @@ PROPERTY = 'C14'
 #  c14-cr                reading a file translates CR / CR LF to LF, a str keeps the CR; two texts that both
 #                        exist as files are compared by `equals` byte by byte.  Region: a str literal part
 #                        contains CR; or (K3) a file's bytes contain CR and the other side may be on disk.
+#  c14-unflushed-before-ignore-exit-code-program
+#                        a text concatenated from parts followed by the output of a program run with
+#                        -ignore-exit-code: when the concatenation is written to a file object that is already a
+#                        file on disk, the earlier parts are still in the buffer of the file object when the child
+#                        writes through the descriptor, so the program's output lands FIRST (the repair 0d4c741
+#                        flushes in file_ctx_managers.opened_file, which exit_ignored._WriterBase.write does not use).
+#                        Region: a non-empty part precedes a part of kind 'prog-i'.
 #  c14-rollover-nonascii SpooledTextFile._rollover positions the new disk file at the CHARACTER offset of the
 #                        memory buffer (newfile.seek(file.tell())), which is the byte offset only for ASCII:
 #                        what is written after the roll-over overwrites the tail of the file.  Region: the
@@ -51,6 +58,7 @@ PROPERTY = 'C14'
 R_SPLITLINES = 'c14-splitlines'
 R_CR = 'c14-cr'
 R_ROLLOVER = 'c14-rollover-nonascii'
+R_FLUSH_IGNORE = 'c14-unflushed-before-ignore-exit-code-program'
 
 SPLIT_NONCR = '\x0b\x0c\x1c\x1d\x1e\x85\u2028\u2029'
 
@@ -193,7 +201,34 @@ def _root(kind: str, fs, tfs, text: str, name: str):
         path = fs.create('src/' + name, text)
         return (file_source.StringSourceOfFile(path, None, tfs),
                 ffs.universal_newlines(text))
+    if kind in ('prog', 'prog-i'):
+        # the output of a program: the REAL program-output string source, the REAL command executor and process
+        # executor; the program is `printf %s TEXT` (run for real in the self-test; under analysis `subprocess.call`
+        # is the stand-in whose child writes TEXT through the file descriptor it was given as stdout).
+        # 'prog-i' = with -ignore-exit-code (other writer classes).  The text is what reading the output file gives.
+        return _program_output_source(text, tfs, _PROG_M[0], kind == 'prog-i'), ffs.universal_newlines(text)
     raise ValueError(kind)
+
+
+_PROG_M = [8192]
+
+
+def _program_output_source(text: str, tfs, m: int, ignore_exit_code: bool):
+    from exactly_lib.impls.program_execution import executable_factories
+    from exactly_lib.impls.program_execution.impl import cmd_exe_from_proc_exe
+    from exactly_lib.impls.types.string_source.command_output import string_source as command_output
+    from exactly_lib.impls.types.utils.command_w_stdin import CommandWStdin
+    from exactly_lib.type_val_prims.program import commands
+    from exactly_lib.type_val_prims.program.command import Command
+    from exactly_lib.util.process_execution.execution_elements import ProcessExecutionSettings
+    from exactly_lib.util.process_execution.process_executor import ProcessExecutor
+    from exactly_lib.util.process_execution.process_output_files import ProcOutputFile
+    executor = cmd_exe_from_proc_exe.CommandExecutorFromProcessExecutor(
+        ProcessExecutor(), executable_factories.get_factory_for_operating_system('posix'))
+    command = Command(commands.CommandDriverForSystemProgram('printf'), ['%s', text])
+    return command_output.string_source('-stdout-from', ignore_exit_code, ProcOutputFile.STDOUT,
+                                        CommandWStdin(command, ()), ProcessExecutionSettings.null(),
+                                        executor, m, tfs)
 
 
 def build_source(spec, fs, tfs, parts, m: int, prefix: str = ''):
@@ -201,6 +236,7 @@ def build_source(spec, fs, tfs, parts, m: int, prefix: str = ''):
     Returns (source, denoted text)."""
     from exactly_lib.type_val_prims.string_source.impls import concat
     root = spec[0]
+    _PROG_M[0] = m
     if isinstance(root, tuple):
         srcs = []
         text = ''
@@ -221,13 +257,17 @@ def build_source(spec, fs, tfs, parts, m: int, prefix: str = ''):
 
 def spec_has_cache(spec) -> bool:
     """Does the source contain a StringSourceWithCachedFrozen (=> a SpooledTextFile when frozen)?"""
-    if isinstance(spec[0], tuple):
+    if isinstance(spec[0], tuple) or spec[0] in ('prog', 'prog-i'):
         return True
     return any(layer in ('filter', 'filter2', 'seq', 'writer', 'fdwriter') for layer in spec[1:])
 
 
 def spec_needs_fd(spec) -> bool:
-    return 'fdwriter' in spec[1:]
+    """must write_to be given a file that has a descriptor (a child process writes to it)?"""
+    if 'fdwriter' in spec[1:]:
+        return True
+    kinds = spec[0][1:] if isinstance(spec[0], tuple) else (spec[0],)
+    return 'prog' in kinds or 'prog-i' in kinds
 
 
 def n_parts(spec) -> int:
@@ -375,12 +415,19 @@ def in_known_region(spec, parts, m: int) -> bool:
     kinds = root_kinds(spec)
     if ob.excluded(R_CR):
         for i in range(len(kinds)):
-            if kinds[i] == 'str' and has_cr(parts[i]):
+            if kinds[i] in ('str', 'prog', 'prog-i') and has_cr(parts[i]):
+                # (program output: its file keeps the CR bytes, reading it as text does not)
                 return True
     if ob.excluded(R_SPLITLINES) and holds_str(spec):
         for i in range(len(kinds)):
             if has_split_noncr(parts[i]):
                 return True
+    if ob.excluded(R_FLUSH_IGNORE):
+        before = 0
+        for i in range(len(kinds)):
+            if kinds[i] == 'prog-i' and before > 0:
+                return True
+            before += len(parts[i])
     if ob.excluded(R_ROLLOVER) and spec_has_cache(spec):
         total = 0
         for i in range(len(kinds)):
@@ -420,6 +467,13 @@ def k2_access(s: str, t: str, u: str, m: int, a0: int, a1: int, a2: int) -> bool
     ffs.install(fs)
     src, text = build_source(c['spec'], fs, tfs, (s, t, u), m)
     lines = ref_lines(text)
+    if c.get('oracle_bug') == 'prog-first':
+        # seeded oracle error: "the output of the program comes first" (the order the unflushed buffer produced)
+        kinds = root_kinds(c['spec'])
+        all_parts = (s, t, u)
+        text = ''.join(all_parts[i] for i in range(len(kinds)) if kinds[i].startswith('prog')) + \
+            ''.join(all_parts[i] for i in range(len(kinds)) if not kinds[i].startswith('prog'))
+        lines = ref_lines(text)
     if c.get('oracle_bug') == 'lines':
         # seeded oracle error: a reference line division that also divides after 'a'
         lines = [x for x in _split_after(text, 'a\n')]
@@ -815,6 +869,36 @@ K2_CONCAT3_SPECS = [(('concat', 'str', 'str', 'str'),), (('concat', 'str', 'file
 K3_OUTSIDE = ('real files; filecmp is replaced by byte equality of the stand-in files',)
 
 
+SEQ_PROG_FILE_FIRST = 'FWALZWFAL'  # as a file / written to a file while nothing is cached, then the rest, frozen, all again
+SEQ_PROG_FROZEN_FIRST = 'ZWFAL'  # frozen before anything was generated
+
+STUB_SUBPROCESS = ('process_executor.subprocess.call -> harness/_C14_fakefs._SubprocessStub: the only program is `printf %s TEXT`; '
+                   'the child writes TEXT through the file DESCRIPTOR of its stdout (past the buffer of the file object), exit code 0')
+REAL_K5 = (
+    'exactly_lib.impls.types.string_source.command_output.string_source.string_source',
+    'exactly_lib.impls.types.string_source.command_output.exit_relevant.StdoutWriter',
+    'exactly_lib.impls.types.string_source.command_output.exit_ignored.StdoutWriter',
+    'exactly_lib.impls.types.string_source.command_output.exit_ignored._WriterBase',
+    'exactly_lib.impls.program_execution.processors.read_stderr_on_error.ProcessorThatReadsStderrOnNonZeroExitCode',
+    'exactly_lib.impls.program_execution.impl.cmd_exe_from_proc_exe.CommandExecutorFromProcessExecutor',
+    'exactly_lib.impls.program_execution.executable_factories.ExecutableFactoryBase',
+    'exactly_lib.util.process_execution.process_executor.ProcessExecutor',
+    'exactly_lib.util.process_execution.file_ctx_managers.opened_file',
+    'exactly_lib.impls.types.string_source.as_stdin.of_sequence',
+) + REAL_K2
+
+
+def _k5_ob(spec, seq, maxlen, alphabet, timeout, nsym=0, tag='', **extra) -> Ob:
+    o = _k2_ob(spec, seq, maxlen, alphabet, timeout, nsym=nsym, tag=tag, **extra)
+    o.name = 'K5' + o.name[2:]
+    o.kernel = 'K5'
+    o.real = REAL_K5
+    o.stubs = tuple(o.stubs) + (STUB_SUBPROCESS,)
+    o.bound = o.bound + '; prog = output of the program `printf %s TEXT` (prog-i: with -ignore-exit-code)'
+    o.entry = 'command_output.string_source(...) in concat.string_source([...])'
+    return o
+
+
 def _k3_ob(espec, aspec, apre, maxlen, alphabet, timeout, **extra) -> Ob:
     case = dict(espec=espec, aspec=aspec, apre=apre, maxlen=maxlen, alphabet=alphabet)
     case.update(extra)
@@ -903,6 +987,31 @@ def obligations(tier: str) -> List[Ob]:
                       oracle_bug='lines'))
     obs[-1].expect = ob.REFUTE
     obs[-1].bound = 'seeded oracle error: a reference line division that also divides after "a"'
+
+    # ---- K5: the output of a program as a part of a concatenation (the child writes through the file DESCRIPTOR)
+    k5_specs = [(('concat', 'str', 'prog'),), (('concat', 'str', 'prog', 'str'),), (('concat', 'prog', 'str'),)]
+    k5_seqs = [SEQ_PROG_FILE_FIRST, SEQ_PROG_FROZEN_FIRST]
+    for spec in k5_specs:
+        for seq in k5_seqs:
+            if thorough:
+                obs.append(_k5_ob(spec, seq, 3, ALPHA_PLAIN if n_parts(spec) == 3 else ALPHA_MAIN, 3000))
+            else:
+                obs.append(_k5_ob(spec, seq, 2, ALPHA_PLAIN, 400))
+    obs.append(_k5_ob(('prog',), SEQ_PROG_FILE_FIRST, 3 if thorough else 2, ALPHA_MAIN, 400))
+    # the same with -ignore-exit-code (other writer classes: exit_ignored.*)
+    obs.append(_k5_ob((('concat', 'str', 'prog-i'),), SEQ_PROG_FILE_FIRST, 3 if thorough else 2, ALPHA_PLAIN, 400))
+    obs.append(_k5_ob((('concat', 'prog-i', 'str'),), SEQ_PROG_FILE_FIRST, 3 if thorough else 2, ALPHA_PLAIN, 400))
+    if thorough:
+        for spec in [(('concat', 'file', 'prog'),), (('concat', 'str', 'str', 'prog'),), (('concat', 'str', 'prog'), 'filter'),
+                     ('prog', 'filter'), (('concat', 'str', 'prog-i', 'str'),)]:
+            for seq in k5_seqs:
+                obs.append(_k5_ob(spec, seq, 3, ALPHA_PLAIN, 2400))
+        for first in ACCESSES:
+            obs.append(_k5_ob((('concat', 'str', 'prog'),), first, 2, ALPHA_PLAIN, 3000, nsym=2))
+    obs.append(_k5_ob((('concat', 'str', 'prog'),), 'FA', 2, ALPHA_PLAIN, 120, tag=':seeded-prog-first',
+                      oracle_bug='prog-first'))
+    obs[-1].expect = ob.REFUTE
+    obs[-1].bound = 'seeded oracle error: "the output of the program comes first"'
 
     # ---- K3
     t3 = 2400 if thorough else 300
@@ -1056,7 +1165,7 @@ def selftest(tier) -> int:
         n += ffs.selftest(d)
         texts = ['', 'a', 'a\n', 'a\nb', 'é\na\n', 'é\né', 'a\r\nb', '\r', 'a\x0cb\n', '\n\n', 'ab\nc\n\nd']
         specs = [('str',), ('file',), ('file', 'identity'), ('str', 'filter'), ('file', 'writer'), ('str', 'seq'),
-                 ('str', 'writer', 'filter'), ('str', 'fdwriter'), ('file', 'fdwriter')]
+                 ('str', 'writer', 'filter'), ('str', 'fdwriter'), ('file', 'fdwriter'), ('prog',), ('prog-i', 'filter')]
         seqs = [SEQ_ROOT, SEQ_UNFROZEN_THEN_FROZEN, SEQ_FROZEN_FIRST, 'FZW', 'ZFL'] if thorough else [SEQ_UNFROZEN_THEN_FROZEN, SEQ_FROZEN_FIRST]
         ms = (1, 2, 3, 5, 100) if thorough else (1, 3, 100)
         k = 0
@@ -1074,9 +1183,25 @@ def selftest(tier) -> int:
                                 spec, seq, t, m, real, fake))
                         n += 1
                         scratch.remove(rd)
+        for spec in [(('concat', 'str', 'prog', 'str'),), (('concat', 'str', 'str', 'prog-i'),)]:
+            for seq in (SEQ_PROG_FILE_FIRST, SEQ_PROG_FROZEN_FIRST):
+                for parts in [('a\n', 'C\n', 'b'), ('a', 'é', ''), ('', 'C', 'b\n'), ('a\nb\n', 'c\n', 'D\n')]:
+                    for m in (1, 2, 100):
+                        k += 1
+                        rd = os.path.join(d, 'r%d' % k)
+                        os.mkdir(rd)
+                        real = _scenario(spec, seq, parts, m, rd)
+                        fake = _scenario(spec, seq, parts, m)
+                        if real != fake:
+                            raise AssertionError('real files and stand-ins differ: %r %r %r m=%r\nreal: %r\nfake: %r' % (
+                                spec, seq, parts, m, real, fake))
+                        n += 1
+                        scratch.remove(rd)
         parts_list = [('a', 'b\n'), ('a\n', 'b'), ('', 'a'), ('a', ''), ('é\n', 'a\né'), ('a\x0cb', 'c'), ('a\r', '\nb')]
-        for spec in [(('concat', 'str', 'str'),), (('concat', 'str', 'file'),), (('concat', 'file', 'str'), 'filter')]:
-            for seq in (SEQ_UNFROZEN_THEN_FROZEN, SEQ_FROZEN_FIRST):
+        for spec in [(('concat', 'str', 'str'),), (('concat', 'str', 'file'),), (('concat', 'file', 'str'), 'filter'),
+                     (('concat', 'str', 'prog'),), (('concat', 'prog', 'str'),), (('concat', 'str', 'prog-i'),),
+                     (('concat', 'file', 'prog'),)]:
+            for seq in (SEQ_UNFROZEN_THEN_FROZEN, SEQ_FROZEN_FIRST, SEQ_PROG_FILE_FIRST, SEQ_PROG_FROZEN_FIRST):
                 for parts in parts_list:
                     for m in ((1, 2, 4, 100) if thorough else (1, 2, 100)):
                         k += 1
